@@ -69,6 +69,9 @@ def render_atom(it):
 
 def render_alt(alt, rname, idx):
     s = " ".join(render_item(i) for i in alt["items"])
+    if alt["action"] == "names":
+        s += " { (" + ", ".join(alt["order"]) + ("," if len(alt["order"]) == 1 else "") + ") }"
+        return s
     if alt["action"] == "tuple":
         names = [i["name"] for i in alt["items"] if i.get("name")]
         s += " { (" + ", ".join([repr(f"{rname}_{idx}")] + names) + ("," if not names else "") + ") }"
@@ -514,6 +517,12 @@ class Ref:
             vals.append(v)
             if it.get("name"):
                 named.append(v)
+        if alt["action"] == "names":
+            env = {}
+            for it2, v2 in zip([i for i in alt["items"] if i["k"] not in ("cut", "pos", "neg")], vals):
+                if it2.get("name"):
+                    env[it2["name"]] = v2
+            return tuple(env[n] for n in alt["order"]), p, cut
         if alt["action"] == "tuple":
             return (tag, *named), p, cut
         if len(vals) == 1:
